@@ -40,6 +40,9 @@ type Plan struct {
 	Linger    bool `json:"linger,omitempty"`     // after N values keep the channel open until ctx is done
 	IgnoreCtx bool `json:"ignore_ctx,omitempty"` // the stream handler never looks at its context (keeps sending / lingering)
 	ElemPad   int  `json:"elem_pad,omitempty"`   // pad each stream element
+	Bare      bool `json:"bare,omitempty"`       // subscribe through the method whose only result is the channel (no error result)
+	ChanCap   int  `json:"chan_cap,omitempty"`   // capacity of the channel the handler returns (at least Early)
+	Flood     bool `json:"flood,omitempty"`      // the producer never pauses: it keeps the returned channel's buffer full until the context ends (N is ignored)
 }
 
 type Result struct {
@@ -413,6 +416,12 @@ func (a *TokAPI) Sub(ctx context.Context, tok string, plan Plan) (<-chan Item, e
 	return subGeneric(a, ctx, tok, plan, func(seq int) Item { return Item{Tok: tok, Seq: seq, Pad: padFor(tok, plan.ElemPad)} })
 }
 
+// SubBare is Sub without an error result: a method whose only result is a channel.
+func (a *TokAPI) SubBare(ctx context.Context, tok string, plan Plan) <-chan Item {
+	ch, _ := subGeneric(a, ctx, tok, plan, func(seq int) Item { return Item{Tok: tok, Seq: seq, Pad: padFor(tok, plan.ElemPad)} })
+	return ch
+}
+
 // SubInt streams integers that encode (hash of tok, seq).
 func (a *TokAPI) SubInt(ctx context.Context, tok string, plan Plan) (<-chan int64, error) {
 	return subGeneric(a, ctx, tok, plan, func(seq int) int64 { return IntItem(tok, seq) })
@@ -510,7 +519,11 @@ func subGeneric[T any](a *TokAPI, ctx context.Context, tok string, plan Plan, mk
 	if early > plan.N {
 		early = plan.N
 	}
-	ch := make(chan T, early)
+	capacity := early
+	if plan.ChanCap > capacity {
+		capacity = plan.ChanCap
+	}
+	ch := make(chan T, capacity)
 	for i := 0; i < early; i++ {
 		ch <- mk(i)
 	}
@@ -523,7 +536,7 @@ func subGeneric[T any](a *TokAPI, ctx context.Context, tok string, plan Plan, mk
 		if plan.IgnoreCtx {
 			done = a.W.quit
 		}
-		for i := early; i < plan.N; i++ {
+		for i := early; i < plan.N || plan.Flood; i++ {
 			if plan.Pace {
 				select {
 				case <-s.tick:
@@ -587,7 +600,22 @@ type TokClient struct {
 	SubStr   func(ctx context.Context, tok string, plan Plan) (<-chan string, error)
 	SubFloat func(ctx context.Context, tok string, plan Plan) (<-chan float64, error)
 	SubRich  func(ctx context.Context, tok string, plan Plan) (<-chan Rich, error)
+	SubBare  func(ctx context.Context, tok string, plan Plan) <-chan Item
 	NoCtx    func(tok string, plan Plan) (Result, error) `rpc_method:"Tok.Call"`
+}
+
+// OpenSub subscribes through Sub, or through SubBare when the plan says so (a client function without an error
+// result has no way of reporting a failure except by panicking: that is turned into an error here).
+func (c *TokClient) OpenSub(ctx context.Context, tok string, plan Plan) (ch <-chan Item, err error) {
+	if !plan.Bare {
+		return c.Sub(ctx, tok, plan)
+	}
+	defer func() {
+		if x := recover(); x != nil {
+			ch, err = nil, fmt.Errorf("bare subscription failed: %v", x)
+		}
+	}()
+	return c.SubBare(ctx, tok, plan), nil
 }
 
 // RevHandler is the client-side handler reverse calls land on.
